@@ -1,7 +1,9 @@
 import Driver.Stream
+import Driver.Recovery
 
 structure World where
   stream : Drv.StreamW := {}
+  recov : Drv.RecW := {}
 
 def step (w : World) (line : String) : World × String :=
   let toks := (line.trimAscii.toString.splitOn " ").filter (· ≠ "")
@@ -11,6 +13,9 @@ def step (w : World) (line : String) : World × String :=
     if t.startsWith "recv." ∨ t.startsWith "send." ∨ t.startsWith "rs." then
       let (s, o) := Drv.stepStream w.stream toks
       ({ w with stream := s }, o)
+    else if t.startsWith "rec." then
+      let (s, o) := Drv.stepRecovery w.recov toks
+      ({ w with recov := s }, o)
     else (w, "bad-op")
 
 partial def loop (hin hout : IO.FS.Stream) (w : World) : IO Unit := do
